@@ -68,7 +68,7 @@ func c05BodyAlphabet(p, q string) []string {
 		"h(" + p + ")", "return " + p, "println(" + p + ")", q + " = " + p, p + " = " + q, "for i = 2 { " + p + " = " + p + " + i }",
 		"if " + p + " == 3 { " + p + " = 2 }", p + " := 4", "x = " + p + "; x", "for " + p + " { 1 }", "-" + p, p + " * 2.5", p + " == " + q, "len(" + p + ")",
 		"g = func(" + p + ") { " + p + " + 1 }; g(1)", "(" + p + " => " + p + " * 2)(5)", "mm = {\"" + p + "\": 7}; mm." + p, "mm = {}; mm[" + p + "] = " + p + "; mm", "aa = [0, 0, 0, 0]; aa[" + p + "] = " + p + "; aa",
-		"(for i = 2 { " + p + " }) + (for j = 2 { j })", "rdg(" + p + ")", "eval(\"" + p + "\")", "[" + p + ", " + p + " + 1][" + p + " - " + p + "]", "sprintf(\"%v\", " + p + ")", "min(" + p + ", 2)", "\"s\" * " + p,
+		"gv = " + p, p + " = " + p + " * 2", "gw = [" + p + "]", "(for i = 2 { " + p + " }) + (for j = 2 { j })", "rdg(" + p + ")", "eval(\"" + p + "\")", "[" + p + ", " + p + " + 1][" + p + " - " + p + "]", "sprintf(\"%v\", " + p + ")", "min(" + p + ", 2)", "\"s\" * " + p,
 	}
 }
 
@@ -116,8 +116,8 @@ func c05FnPrograms(thorough bool, f func(fam, src string) bool) bool {
 		}
 		call := "f(" + strings.Join(args, ", ") + ")"
 		mk := func(body string) string {
-			tail := "[" + strings.Join(names, ", ") + "]"
-			return "h = func(x) { x }\ngv = 100\nrdg = func(x) { gv + x }\nfunc f(" + strings.Join(names, ", ") + ") { " + body + tail + " }\nprintln(" + call + ")\nprintln(" + call + ")"
+			tail := "[" + strings.Join(append(append([]string{}, names...), "gv", "catch(gw)"), ", ") + "]"
+			return "h = func(x) { x }\ngv = 100\nrdg = func(x) { gv + x }\nfunc f(" + strings.Join(names, ", ") + ") { " + body + tail + " }\nprintln(" + call + ")\nprintln(" + call + ")\nprintln(gv, catch(gw))"
 		}
 		if !f("fn", mk("")) {
 			return false
